@@ -137,7 +137,7 @@ func (decWorld) Gen(prop, tier string, idx int, r *Rng) *Trace {
 						fo.A = 0 // the root of the tree
 					}
 				case "net.nest":
-					fo = Op{K: "fault", F: k, A: []int{10, 100, 1000, 5000, 20000, 100000}[r.Intn(6)], B: r.Intn(6), C: r.Intn(64)}
+					fo = Op{K: "fault", F: k, A: []int{10, 100, 1000, 5000, 20000, 100000}[r.Intn(6)], B: r.Intn(8), C: r.Intn(64)}
 				case "net.pad":
 					fo = Op{K: "fault", F: k, A: []int{100, 5000, 60000}[r.Intn(3)], B: r.Intn(256), C: r.Intn(64)}
 				case "byz.members":
@@ -303,6 +303,22 @@ func applyDecFault(s *decSlot, op Op, donor []byte, cfg *DecCfg) bool {
 			var sb bytes.Buffer
 			root.write(&sb)
 			nb, fired = sb.Bytes(), true
+		} else if abs(op.B)%8 >= 6 {
+			// byte string inside byte string inside ...: every level carries a length,
+			// so the chain is built from the inside out, around the whole message
+			// (B%8 == 7: each level also tagged 24, "encoded CBOR data item")
+			if depth > 21000 {
+				depth = 21000
+			}
+			inner := append([]byte{}, target...)
+			for l := 0; l < depth && len(inner) < 65000; l++ {
+				w := cborBstr(inner)
+				if abs(op.B)%8 == 7 {
+					w = append([]byte{0xd8, 0x18}, w...)
+				}
+				inner = w
+			}
+			nb, fired = inner, true
 		} else {
 			unit := [][]byte{{0x81}, {0xa1, 0x00}, {0xc1}, {0x9f}, {0xbf, 0x00}, {0xd8, 0x18, 0x81}}[abs(op.B)%6]
 			nest = bytes.Repeat(unit, depth)
@@ -947,8 +963,12 @@ wait:
 	r := newResult()
 	stderr, at, _ := se.snapshot()
 	oom := strings.Contains(stderr, "out of memory") || strings.Contains(stderr, "cannot allocate memory")
+	// the Go runtime aborts a process whose only goroutine blocks for ever
+	deadlock := strings.Contains(stderr, "all goroutines are asleep")
 	why := "died"
 	switch {
+	case deadlock:
+		why = "blocked for ever inside a decode call (runtime: all goroutines are asleep - deadlock)"
 	case timedOut:
 		why = "made no progress for 60 s (or did not finish within 900 s)"
 	case oom:
@@ -963,7 +983,7 @@ wait:
 	r.Probes["child_died"]++
 	switch prop {
 	case "C06":
-		if timedOut {
+		if timedOut || deadlock {
 			r.violate("C06", "decoder-does-not-return", "", at, "the receiving process %s while handling the delivery at step %d", why, at)
 		} else if oom {
 			r.violate("C06", "decoder-exhausts-memory", "", at, "the receiving process %s while handling the delivery at step %d", why, at)
@@ -971,8 +991,8 @@ wait:
 			r.Fatal = "child died for a reason that is not C06's: " + tail(stderr, 600)
 		}
 	case "C05":
-		if oom || timedOut {
-			// resource exhaustion is C06's to report
+		if oom || timedOut || deadlock {
+			// resource exhaustion / non-termination is C06's to report
 			r.Probes["child_resource_death_not_c05"]++
 		} else {
 			r.violate("C05", "receiver-process-crashed", "", at, "the receiving process %s while handling the delivery at step %d: %s", why, at, tail(stderr, 300))
